@@ -226,38 +226,6 @@ Record chan := mkChan { c_m : mach; c_peers : list bytes; c_parent : option byte
 Definition world := list (bytes * chan).          (* sorted by channel id *)
 Definition wfind (id : bytes) (W : world) : option chan := sfind bytes_cmp id W.
 
-Inductive wop :=
-| WCreate (p : mparams) (idx : N) (peers : list bytes) (parent : option bytes)
-| WOp (id : bytes) (o : op).
-Definition is_withdrawn_ok (o : op) (x : out) : bool :=
-  match o, x with OSetWithdrawn, OK => true | _, _ => false end.
-(* The registry of live channels is the client's: a channel id is created once (ids are hashes over a
-   nonce) and operations address live channels; both guards answer ERR without touching anything. *)
-Definition wstep (W : world) (s : store) (o : wop) : world * out * list atomic :=
-  match o with
-  | WCreate p idx peers parent =>
-      match wfind (mp_id p) W with
-      | Some _ => (W, ERR, [])
-      | None =>
-          let m := new_machine p idx in
-          match chan_created m peers parent with
-          | Some ws => (sput bytes_cmp (mp_id p) (mkChan m peers parent) W, OK, ws)
-          | None => (W, ERR, [])
-          end
-      end
-  | WOp id o =>
-      match wfind id W with
-      | None => (W, ERR, [])
-      | Some c =>
-          let '(m', x, ws) := wrap_step s (c_m c) o in
-          if is_withdrawn_ok o x then (sdel bytes_cmp id W, x, ws)
-          else (sput bytes_cmp id (mkChan m' (c_peers c) (c_parent c)) W, x, ws)
-      end
-  end.
-Definition wnext (Ws : world * store) (o : wop) : world * store :=
-  let '(W', _, ws) := wstep (fst Ws) (snd Ws) o in (W', apply_atomics (snd Ws) ws).
-Definition wrun (h : list wop) : world * store := fold_left wnext h ([], []).
-
 (* ---------- restorer (keyvalue/restorer.go) ---------- *)
 (* what a restore returns: persistence.Channel *)
 Record rchan := mkRC {
@@ -394,6 +362,54 @@ Fixpoint dedup (l : list bytes) : list bytes :=
   end.
 Definition active_peers (s : store) : list bytes :=
   dedup (fold_right (fun e acc => match fst e with KPeer p _ => p :: acc | _ => acc end) [] s).
+
+(* ---------- histories of a client ---------- *)
+Inductive wop :=
+| WCreate (p : mparams) (idx : N) (peers : list bytes) (parent : option bytes)
+| WOp (id : bytes) (o : op)
+| WRestart.       (* the process stops between two operations and comes up again *)
+Definition is_withdrawn_ok (o : op) (x : out) : bool :=
+  match o, x with OSetWithdrawn, OK => true | _, _ => false end.
+(* The registry of live channels is the client's: a channel id is created once (ids are hashes over a
+   nonce) and operations address live channels; both guards answer ERR without touching anything. *)
+(* A restart keeps the store and nothing else: a new PersistRestorer over the same database (it has no
+   state of its own besides the database handle), every channel the restorer yields becomes a live
+   machine again (channel.restoreMachine: parameters, own index, phase, staging and current transaction
+   as restored) and is used further through the new persister. *)
+Definition mach_of_rchan (rc : rchan) : mach :=
+  mkMach (rc_phase rc) (rc_idx rc) (rc_params rc)
+         (match rc_stg rc with Some st => Some (mkTx st (rc_sigs rc)) | None => None end) (rc_cur rc).
+Definition chan_of_rchan (rc : rchan) : chan := mkChan (mach_of_rchan rc) (rc_peers rc) (rc_parent rc).
+Definition rebuild (l : list rchan) : world :=
+  fold_right (fun rc W => sput bytes_cmp (mp_id (rc_params rc)) (chan_of_rchan rc) W) [] l.
+Definition wstep (W : world) (s : store) (o : wop) : world * out * list atomic :=
+  match o with
+  | WCreate p idx peers parent =>
+      match wfind (mp_id p) W with
+      | Some _ => (W, ERR, [])
+      | None =>
+          let m := new_machine p idx in
+          match chan_created m peers parent with
+          | Some ws => (sput bytes_cmp (mp_id p) (mkChan m peers parent) W, OK, ws)
+          | None => (W, ERR, [])
+          end
+      end
+  | WOp id o =>
+      match wfind id W with
+      | None => (W, ERR, [])
+      | Some c =>
+          let '(m', x, ws) := wrap_step s (c_m c) o in
+          if is_withdrawn_ok o x then (sdel bytes_cmp id W, x, ws)
+          else (sput bytes_cmp id (mkChan m' (c_peers c) (c_parent c)) W, x, ws)
+      end
+  | WRestart =>
+      let (l, e) := restore_all s in
+      (rebuild l, match e with EOk => OK | EPanic => PANIC | _ => ERR end, [])
+  end.
+Definition wnext (Ws : world * store) (o : wop) : world * store :=
+  let '(W', _, ws) := wstep (fst Ws) (snd Ws) o in (W', apply_atomics (snd Ws) ws).
+Definition wrun (h : list wop) : world * store := fold_left wnext h ([], []).
+
 
 (* ---------- what the store is meant to hold: the snapshot of a live channel ---------- *)
 Definition staged_sigs (m : mach) : list (option sigtok) :=
